@@ -1248,6 +1248,12 @@ def _check_cs_case(case, with_tocs=True):
             add(STM + 'to_compartmental_system', CC_TOCS_ERR, f'raised {_exc(e)}')
 
     # ---- single builder operations -----------------------------------------------------------------
+    dosecomp0 = NAMES[case['dose']]
+    has_input = case.get('input') is not None
+    first_two_inputs = None
+    if has_input:
+        other = [nm for nm in sorted(ref['comps']) if nm != NAMES[case['input']]]
+        first_two_inputs = f'set_input({other[0]}, R2)' if other else None
     for label, method, fn, want in _ops(ref):
         try:
             cb = px['Builder'](cs)
@@ -1260,7 +1266,12 @@ def _check_cs_case(case, with_tocs=True):
         if not _obs_matches(ob, want):
             add(CB + method, CC_OP, f'{label}: ' + _obs_diff(ob, want))
             continue
-        _check_system(cs2, want, add, f'after {label}: ')
+        if method in ('add_dose', 'add_compartment') or label == f'remove_dose({dosecomp0})' or \
+                (method == 'set_input' and has_input and want['comps'] != ref['comps']
+                 and sum(c['input'] != '0' for c in want['comps'].values()) == 2
+                 and label == first_two_inputs):
+            # systems outside the enumerated family: two dosing compartments, no dose, two inputs, n+1
+            _check_system(cs2, want, add, f'after {label}: ')
         if want != ref:
             try:
                 if cs2 == cs or cs == cs2:
@@ -1289,6 +1300,11 @@ def _cs_size(case):
             repr(sorted(case.items())))
 
 
+def _with_tocs(case):
+    n = case['n']
+    return n <= 2 or case['dose'] == (len(case['edges']) + len(case['outs'])) % n
+
+
 def _cs_worker(chunk):
     fails = {}
     nontrivial = 0
@@ -1305,15 +1321,20 @@ def _cs_worker(chunk):
 
 def bounded_compartmental(tier):
     cases = []
-    for n in (1, 2, 3):
+    for n in (1, 2):
         cases += [(c, True) for c in _cs_cases(n)]
+    cases += [(c, _with_tocs(c)) for c in _cs_cases(3, inputs_all=False)]
     bound = ('all directed graphs on <=3 compartments (CENTRAL, DEPOT, PERI) with distinct symbolic rates x every '
              'subset of output flows x Bolus dose (with lag time and bioavailability) on each compartment x zero-order '
-             'input on none or one compartment, each built in 2 insertion orders, plus every single builder operation')
+             'input on none or one compartment (n<=2: any; n=3: the one after the dose compartment), each built in 2 '
+             'insertion orders, plus every single builder operation; to_compartmental_system for every case with '
+             'n<=2 and once per (graph, outputs, input) with a rotating dose compartment for n=3')
     if tier != 'quick':
-        cases += [(c, len(c['edges']) <= 3) for c in _cs_cases(4, inputs_all=False)]
-        bound += (' | thorough: the same on 4 compartments (+X4) with the input on none or on the compartment after '
-                  'the dose compartment; to_compartmental_system only for <=3 flows')
+        cases += [(c, True) for c in _cs_cases(3) if not (c['input'] in (None, (c['dose'] + 1) % 3) and _with_tocs(c))]
+        cases += [(c, False) for c in _cs_cases(4, inputs_all=False)]
+        bound += (' | thorough: n=3 with the input on any compartment and to_compartmental_system everywhere; the '
+                  'same on 4 compartments (+X4) with the input on none or on the compartment after the dose '
+                  'compartment, without to_compartmental_system')
     chunks = [cases[i::NPROC * 8] for i in range(NPROC * 8)]
     chunks = [c for c in chunks if c]
     results = _run_pool(_cs_worker, chunks)
